@@ -13,7 +13,7 @@ ASSUMPTIONS = [
     'path input is exercised on the smoke inputs only (file I/O is blocked under the symbolic executor\'s audit wall); the thorough tier adds a bug-hunting pass of _infer_type on a symbolic str (len <= 3)',
 ]
 
-CELLS = ['', ' ', '1', ' 42 ', '-7', '007', '1_0', '1e3', '2.5', 'nan', 'abc', ' x ', 'a,b', 'a;b', 'say "hi"', 'l1\nl2', 'é', '١٢', 'True', 'None', '+3', '.5', 'inf', '0x10', '\t', '1.', '1,000', "it's", 'a\tb', ' ']
+CELLS = ['', ' ', '1', ' 42 ', '-7', '007', '1_0', '1e3', '2.5', 'nan', 'abc', ' x ', 'a,b', 'a;b', 'say "hi"', 'l1\nl2', 'é', '١٢', 'True', 'None', '+3', '.5', 'inf', '0x10', '\t', '1.', '1,000', "it's", 'a\tb', ' ', 'a\r\nb', 'x\ry', '1_000', '-2_5']
 HEADERS = ['a', 'b', 'a', '', 'A b', 'col_0', '1']
 DELIMS = [',', ';', '\t', '|']
 CL = H.cfg('cells', 20)
